@@ -4,7 +4,10 @@ import vlib, xmllib as X, pkglib as P, rnglib
 from vlib import sx_str
 from . import c05lib as L, schemagen, doccommon as DC
 
-THEOREMS = ['see props/C05.v']
+THEOREMS = ['C05_load: for any parsed parts (any root, sections in any number and order, text between them) the loader gives the explicit document loaded_any',
+            'C05_sections: each section of it = the kept children of the source sections routed to it, in load order',
+            'C05_content_font_declarations_skipped / C05_styles_font_declarations_kept', 'C05_resave (C04 applied to the loaded document)',
+            'package level (other members byte-identical, media types): theorems of C03/C16 plus the oracle here']
 RULE = ('packages: (1) every sample document of the repository (tests/examples, samples, examples, contrib); (2) structure-preserving '
         'mutations of them written by an independent serialiser: prefixes renamed, a default namespace for element names, newline-separated '
         'xmlns declarations, declarations where first used, manifest reordered, object folders renumbered (with the references to them), '
@@ -41,6 +44,7 @@ def reserialise(pk, rng, how):
             elif how == 'default-namespace-text': kw = {'prefixes': std, 'default_ns': P.NS['text']}
             elif how == 'newline-declarations': kw = {'prefixes': std, 'newline_decls': True}
             elif how == 'local-declarations': kw = {'prefixes': std, 'local_decls': True}
+            elif how == 'spaced-declarations': kw = {'prefixes': std, 'spaced_eq': True}
             else: kw = {'prefixes': std}
             if how == 'foreign-attributes': tree = add_attrs(tree, rng)
             members[n] = L.serialise(tree, **kw).encode('utf-8')
@@ -57,9 +61,13 @@ def add_attrs(t, rng, depth=0):
 
 def mutate(pk, rng, how):
     """bytes of a mutated package, or None when the mutation does not apply"""
-    if how in ('rename-prefixes', 'default-namespace', 'default-namespace-text', 'newline-declarations', 'local-declarations', 'plain-reserialise', 'foreign-attributes'):
+    if how in ('rename-prefixes', 'default-namespace', 'default-namespace-text', 'newline-declarations', 'local-declarations', 'spaced-declarations', 'plain-reserialise', 'foreign-attributes'):
         m = reserialise(pk, rng, how)
         return None if m is None else L.repack(pk, members=m)
+    if how == 'empty-media-types':
+        man = [(p_, '' if (p_.startswith('Pictures/') or p_.startswith('Thumbnails/') or p_.startswith('Configurations2/')) else mt) for p_, mt in (pk['manifest'] or [])]
+        if man == list(pk['manifest'] or []): return None
+        return L.repack(pk, manifest=man)
     if how == 'manifest-reorder':
         man = list(pk['manifest'] or []); rng.shuffle(man)
         return L.repack(pk, manifest=man, order=rng.sample(pk['order'], len(pk['order'])))
@@ -90,7 +98,7 @@ def mutate(pk, rng, how):
         return L.repack(pk2, manifest=man)
     return None
 
-MUTATIONS = ['rename-prefixes', 'default-namespace', 'default-namespace-text', 'newline-declarations', 'local-declarations', 'plain-reserialise',
+MUTATIONS = ['rename-prefixes', 'default-namespace', 'default-namespace-text', 'newline-declarations', 'local-declarations', 'spaced-declarations', 'empty-media-types', 'plain-reserialise',
              'foreign-attributes', 'manifest-reorder', 'extra-members', 'renumber-objects']
 
 def synthetic(rng, g):
@@ -99,7 +107,7 @@ def synthetic(rng, g):
     sec = {a: X.walk_real(getattr(doc, a)) for a in DC.SECTS}
     ver = [((L.OFF, 'version'), '1.2')]
     c = ('E', (L.OFF, 'document-content'), ver, [sec['scripts'], sec['fontfacedecls'], sec['automaticstyles'], sec['body']])
-    s = ('E', (L.OFF, 'document-styles'), ver, [sec['fontfacedecls'], sec['styles'], ('E', (L.OFF, 'automatic-styles'), [], []), sec['masterstyles']])
+    s = ('E', (L.OFF, 'document-styles'), ver, [sec['fontfacedecls'], sec['styles'], sec['automaticstyles'], sec['masterstyles']])     # each part carries the automatic styles it may need
     m = ('E', (L.OFF, 'document-meta'), ver, [sec['meta']])
     st = ('E', (L.OFF, 'document-settings'), ver, [sec['settings']])
     std = {ns: p for p, ns in P.NS.items()}
@@ -155,7 +163,8 @@ def run(ctx):
         name = os.path.relpath(f, vlib.REPO)
         run_one(ctx, d, refattrs, data, {'source': name, 'mutation': 'none'})
         pk = P.read_package(data)
-        muts = MUTATIONS if not ctx.quick else ctx.rng.sample(MUTATIONS, 2)
+        k0 = files.index(f)
+        muts = MUTATIONS if not ctx.quick else [MUTATIONS[(2 * k0) % len(MUTATIONS)], MUTATIONS[(2 * k0 + 1) % len(MUTATIONS)]]
         for how in muts:
             md = mutate(pk, ctx.rng, how)
             if md is None: ctx.bump('mutation-not-applicable'); continue
